@@ -126,6 +126,11 @@ func genDoc(r *hx.Rng, format string) Doc {
 	return d
 }
 
+// GenRich returns the bytes of a generated document of the format ("docx", "odt", "pptx",
+// "html", "xlsx") with headings, nested lists and tables with merged cells — for other
+// harnesses that need a structurally rich valid document.
+func GenRich(r *hx.Rng, format string) []byte { return writeDoc(format, genDoc(r, format)) }
+
 func docOptions(idx int) rag.MarkdownOptions {
 	o := rag.DefaultMarkdownOptions()
 	o.HeadingLevelOffset = -2 + idx%10
